@@ -844,7 +844,7 @@ def body_table(ctx: core.Ctx, case: dict):
 MALFORMED = [
     'row_removed', 'pair_duplicated', 'pair_duplicated_other_missing', 'fourth_mass_row', 'fourth_mass_all_levels',
     'descent_row_second_mass', 'tas_mass_dependent', 'climb_fuel_mass_dependent', 'missing_column',
-    'ragged_short', 'ragged_long',
+    'ragged_short', 'ragged_long', 'staggered_holes',
 ]
 
 
@@ -896,6 +896,13 @@ def damage(T: Table, mut: str, a: int, b: int, c: int):
         r = dict(rows[desc_rows[a % len(desc_rows)]])
         r['mass'] = T.masses[0] if b % 2 else T.masses[2]
         rows.insert(c % (len(rows) + 1), r)
+    elif mut == 'staggered_holes':
+        # one point missing per mass, each at another flight level: every mass keeps the same number of levels and
+        # there are no duplicates, but it is not a flight-level x mass grid
+        ph = rows[k]['phase']
+        fls = sorted({r['fl'] for r in rows if r['phase'] == ph})
+        drop = {(fls[(b + j) % len(fls)], m) for j, m in enumerate(sorted({r['mass'] for r in rows if r['phase'] == ph}))}
+        rows = [r for r in rows if not (r['phase'] == ph and (r['fl'], r['mass']) in drop)]
     elif mut == 'tas_mass_dependent':
         rows[k]['tas'] = rows[k]['tas'] * 1.25 + 1.0
     elif mut == 'climb_fuel_mass_dependent':
